@@ -287,7 +287,7 @@ def _ds_case(args):
 
 
 def run(ctx):
-    depth = 4 if ctx.quick else 5
+    depth = 5 if ctx.quick else 6
     dev = 1
     cfgs = grid(ctx)
     results = par.pmap(_run_cfg, [(c, depth, dev) for c in cfgs])
